@@ -1616,8 +1616,9 @@ where
 
                         let mut should_send_to_server = true;
 
-                        // If we have just a sync message left (maybe after omitting sending some messages to the server) no need to send it to the server
-                        if *self.buffer.first().unwrap() == b'S' {
+                        // If we have just a sync message left (maybe after omitting sending some messages to the server) no need to send it to the server,
+                        // unless the server is waiting for it: an extended protocol COPY FROM STDIN has just ended.
+                        if *self.buffer.first().unwrap() == b'S' && !server.awaiting_sync() {
                             should_send_to_server = false;
                             // queue up a ready for query message to send to the client, respecting the transaction state of the server
                             self.response_message_queue_buffer
@@ -1655,6 +1656,11 @@ where
                         }
 
                         self.buffer.clear();
+
+                        // The batch started a COPY FROM STDIN: the server has ignored its Sync.
+                        if should_send_to_server && server.in_copy_mode() {
+                            server.copy_in_started_by_extended_protocol();
+                        }
 
                         // The batch is through: statements evicted while preparing it can go now.
                         server.close_evicted_prepared_statements().await?;
@@ -1716,7 +1722,9 @@ where
                             }
                         };
 
-                        if !server.in_transaction() {
+                        // After an extended protocol COPY the server is not done before the
+                        // client's Sync, which the Sync arm forwards.
+                        if !server.in_transaction() && !server.awaiting_sync() {
                             self.stats.transaction();
                             server
                                 .stats()
